@@ -7,7 +7,7 @@ PROPS["C09"] = dict(
     rule="a history (3-18 calls) on a fresh root, then one more call (Prepare/View/Commit/Remove/Cleanup/Close) during which every crash-point "
          "marker of snapshot.go copies the root directory; a fresh NewSnapshotter is started on one of the copies (marker = kseed mod markers hit) with "
          "NoRestore / allow_invalid_mounts_on_restart / strict and scripted restore Mount failures, then 1-7 post-crash calls (usually starting with Cleanup); "
-         "corpus first: every marker of a remote Prepare, of the very first createSnapshot, of a synchronous Remove and of Close; "
+         "also: images taken INSIDE a directory removal (children gone / only work gone / only fs gone, directory left) for Close, Remove and Cleanup, and a Cleanup racing a createSnapshot held between rename and commit before the crash; corpus first: every marker of a remote Prepare, of the very first createSnapshot, of a synchronous Remove and of Close; "
          "non-trivial = something was re-mounted or the image holds a temp/orphan directory; distinct = distinct full case",
     assumptions=[
         "bolt: a crash exposes exactly the last committed transaction (the harness copies metadata.db while the write transaction is still open); "
